@@ -247,6 +247,19 @@ def r3(db, rep):
                            f"value stack to the exiting frame — the frame's slots outlive the failed entry",
                            detail=[f"block path: {path}", f"lines: {[f.line_of(x) for x in (path or [])]}"], loc=f.loc(b))
     rep.floor("R3", "Break exits of the unwinding protocol", n, 4)
+    # handler found in an outer frame: the frames popped on the way must leave the value stack too
+    fs = [f for f in db.fns.values() if cname(f.id) == "Context::handle_throw"]
+    if fs:
+        f = fs[0]
+        trunc = set(b for b, t in f.calls() if cn(t) == "Stack::truncate_to_frame")
+        pops = [b for b, t in f.calls() if cn(t) == POP]
+        for i, pb_ in enumerate(pops):
+            path = f.path_search([], (trunc | pb(f)) - {pb_}, is_ret(f), via=[pb_])
+            rep.ob("R3", f"Context::handle_throw:popped-frame-truncated:{i}", path is None,
+                   f"Context::handle_throw: a frame popped at {f.loc(pb_)} can be followed by a return (handler found in an "
+                   f"outer frame) without truncating the value stack to it — every exception caught from a callee leaves the "
+                   f"callee's this/function/arguments/registers above the catching frame's registers",
+                   detail=[f"block path: {path}"], loc=f.loc(pb_))
 
 
 def r4(db, rep):
